@@ -144,6 +144,12 @@ def knowFunction (defs : List LogicFun) (n : String) : Bool :=
 /-- `getdef`: the first definition of that name -/
 def getDef (defs : List LogicFun) (n : String) : Option LogicFun := defs.find? (fun d => d.name == n)
 
+/-- what a call of the name `n` reaches (the guard of the *Known function* branch, `env.know_function(n)`, then
+`env.getdef(n)`): the definition of that name when the environment holds exactly one, nothing otherwise – a name
+bound twice is not resolved at all (the caller is refused with `UnknownSymbolException`) -/
+def resolve (defs : List LogicFun) (n : String) : Option LogicFun :=
+  if knowFunction defs n then getDef defs n else none
+
 /-! ## the call site -/
 
 /-- a translated actual argument `(type, value)`: `isList` = the value is a Python list of bit
